@@ -9,8 +9,8 @@ Core Lean only.
 * `balanced_restores`, `restored_observation`, `inside_is_code`, `inside_observation` — scoping and
   restoration for every well-nested history (any depth, any order of codes, any of the three ways of
   leaving a block);
-* `operator_eq_method`, `operator_in_block` — the bare operator inside the block is the explicit method
-  with the block's code;
+* `operator_eq_method`, `operator_in_block` — the bare operator inside the block is the explicit method with the
+  block's code, for every operator (incl. `D ** y`, `Distribution.__pow__`, since the repair 449c733);
 * `thread_isolation` — for EVERY schedule (any list of thread-tagged events, not a bounded
   enumeration) each thread observes exactly what its own events, run alone, would show;
 * `task_copy_semantics`, `task_created_anywhere`, `thread_starts_fresh` — a task starts from a copy (of
@@ -180,11 +180,25 @@ theorem inside_observation (d : Code) {es : List Ev} (h : Balanced es) (c : Ctx)
 
 /-! ### operators -/
 
-/-- ★ the bare operator is the explicit method applied to the value read at call time -/
+/-- the statement: the bare operator is the explicit method applied to the value read at call time -/
+def OperatorEqMethodStatement : Prop := ∀ (op : Op) (c : Ctx), operator op c = method op (get c)
+
+/-- ★ it holds for every operator of `Pbox`, of the Dempster-Shafer mixin and of `Distribution`.
+(On the pinned tree `Distribution.__pow__` passed the literal `"f"`: finding KF-C16-dist-pow, repaired by 449c733;
+while it was open the model had a special case `powD ↦ method pow f` and this statement was refuted on
+`powD` under `p`.) -/
 theorem operator_eq_method (op : Op) (c : Ctx) : operator op c = method op (get c) := rfl
 
-/-- ★ inside `with dependency(d)`, after any well-nested prefix, the bare operator gives exactly what the
-explicit method called with `d` gives (value or error), and the observed setting is `d` -/
+theorem operator_eq_method_statement : OperatorEqMethodStatement := operator_eq_method
+
+/-- the statement: inside `with dependency(d)`, after any well-nested prefix, the bare operator gives exactly
+what the explicit method called with `d` gives (value or error), and the observed setting is `d` -/
+def OperatorInBlockStatement : Prop :=
+  ∀ (op : Op) (d : Code) (es : List Ev), Balanced es → ∀ c : Ctx,
+    ∃ tr o, trace c (Ev.enter d :: (es ++ [.arith op])) = some tr ∧ tr.getLast? = some o
+      ∧ o.code = d ∧ o.res = some (method op d)
+
+/-- ★ -/
 theorem operator_in_block (op : Op) (d : Code) {es : List Ev} (h : Balanced es) (c : Ctx) :
     ∃ tr o, trace c (Ev.enter d :: (es ++ [.arith op])) = some tr ∧ tr.getLast? = some o
       ∧ o.code = d ∧ o.res = some (method op d) := by
@@ -201,7 +215,10 @@ theorem operator_in_block (op : Op) (d : Code) {es : List Ev} (h : Balanced es) 
   · simp [obsOf, get]
   · simp [obsOf, operator, get]
 
-/-- ★ an unknown code makes every operator / method fail -/
+theorem operator_in_block_statement : OperatorInBlockStatement :=
+  fun op d _ h c => operator_in_block op d h c
+
+/-- ★ an unknown code makes every explicit method fail (all of them, `pow` behind `D ** y` included) -/
 theorem unknown_code_fails (op : Op) (n : Nat) : ∃ e, method op (.unk n) = .error e := by
   cases op <;> simp [method, addDispatch, mulDispatch, powDispatch, swapPO, Except.map]
 
@@ -210,13 +227,23 @@ theorem known_code_dispatches (op : Op) (d : Code) (h : d.known = true) : ∃ ca
   cases op <;> cases d <;> simp [Code.known] at h <;>
     simp [method, addDispatch, mulDispatch, powDispatch, swapPO, Except.map]
 
-/-- ★ … also as observed inside a block with an unknown code, whatever happened in the block before -/
+/-- the statement: every bare operator fails inside a block with an unknown code -/
+def UnknownCodeFailsInBlockStatement : Prop :=
+  ∀ (op : Op) (n : Nat) (es : List Ev), Balanced es → ∀ c : Ctx,
+    ∃ tr o e, trace c (Ev.enter (.unk n) :: (es ++ [.arith op])) = some tr ∧ tr.getLast? = some o
+      ∧ o.res = some (.error e)
+
+/-- ★ … as observed inside a block with an unknown code, whatever happened in the block before
+(on the pinned tree `D ** y` returned the Frechet power there instead of failing; repaired by 449c733) -/
 theorem unknown_code_fails_in_block (op : Op) (n : Nat) {es : List Ev} (h : Balanced es) (c : Ctx) :
     ∃ tr o e, trace c (Ev.enter (.unk n) :: (es ++ [.arith op])) = some tr ∧ tr.getLast? = some o
       ∧ o.res = some (.error e) := by
   obtain ⟨tr, o, htr, hl, _, hres⟩ := operator_in_block op (.unk n) h c
   obtain ⟨e, he⟩ := unknown_code_fails op n
   exact ⟨tr, o, e, htr, hl, by rw [hres, he]⟩
+
+theorem unknown_code_fails_in_block_statement : UnknownCodeFailsInBlockStatement :=
+  fun op n _ h c => unknown_code_fails_in_block op n h c
 
 /-- `sub`/`div` exchange perfect and opposite and nothing else -/
 theorem swapPO_involutive (d : Code) : swapPO (swapPO d) = d := by
